@@ -324,6 +324,10 @@ def log_writer_format(seed, n):
         t = dt(2023, 11, 30, 13, 15, 0, 123456)
         for i in range(n):
             t += td(microseconds=rng.randint(1, 10 ** 7))
+            if i % 4 == 1:
+                t = t.replace(microsecond=0)  # an exact second
+            elif i % 4 == 2:
+                t = t.replace(microsecond=t.microsecond // 1000 * 1000)  # millisecond precision (serial transports)
             frame = _random_frame(rng)
             rssi = f"{rng.randint(0, 999):03d}"
             com = rng.choice(["", "", "a comment", "x*y<z"])
